@@ -1,6 +1,7 @@
 package checks
 
 import (
+	"bytes"
 	"context"
 	"encoding/json"
 	"fmt"
@@ -306,10 +307,55 @@ func runAuthz(c *kernel.Ctx, prop string) {
 			k.Banned = ban
 			c.Logf("keyban %s banned=%v", k.Name, ban)
 			c.Fault("key-ban-toggle")
+			if ban {
+				w.otherSpellings(cl, k)
+			}
 		}
 	}
 	if w.permit > 0 && w.refuse > 0 {
 		c.NonTrivial()
+	}
+}
+
+// otherSpellings: the ban is on the key, not on one way of writing it. Strings that differ from the
+// banned key only in how a decoder might read them (the other base64 alphabet, padding, case of one
+// character) are tried: one that decrypts to the very same key bytes is the same key and must be refused
+// while the ban is in force. (A string that decrypts to different bytes is another key: not this check's
+// business.)
+func (w *azWorld) otherSpellings(cl *mqttc.Client, k *model.KeyInfo) {
+	orig, err := w.cipher.DecryptKey([]byte(k.Key))
+	if err != nil {
+		return
+	}
+	variants := map[string]bool{}
+	variants[strings.ReplaceAll(k.Key, "-", "+")] = true
+	variants[strings.ReplaceAll(k.Key, "_", "/")] = true
+	variants[strings.ReplaceAll(strings.ReplaceAll(k.Key, "-", "+"), "_", "/")] = true
+	variants[k.Key+"="] = true
+	variants[k.Key+"=="] = true
+	variants[strings.ToUpper(k.Key[:1])+k.Key[1:]] = true
+	variants[strings.ToLower(k.Key[:1])+k.Key[1:]] = true
+	for _, v := range sortedKeys(variants) {
+		if v == k.Key || strings.Contains(v, "/") {
+			continue // a '/' ends the key part of a channel string
+		}
+		dec, err := w.cipher.DecryptKey([]byte(v))
+		if err != nil || !bytes.Equal(dec, orig) {
+			continue
+		}
+		w.c.Probe("second-spelling-of-a-key")
+		lv := model.Levels(k.Target)
+		for i := range lv {
+			if lv[i] == "+" || lv[i] == "#" {
+				lv[i] = "a"
+			}
+		}
+		if len(lv) == 0 {
+			lv = []string{"a"}
+		}
+		if w.subscribeOK(cl, v, lv) {
+			w.c.Check("overgrant", "ban other-spelling", "key %s is banned, but the same key written as %q (it decrypts to the same bytes) is accepted", k.Name, v)
+		}
 	}
 }
 
